@@ -1,6 +1,7 @@
 package main
 
 import (
+	"github.com/resonatehq/resonate/pkg/promise"
 	"bytes"
 	"database/sql"
 	"errors"
@@ -70,6 +71,7 @@ type Policy struct {
 	MaxDefer   int
 	PPre       float64 // failure before execution
 	PPost      float64 // failure after commit (lost response)
+	PRollback  float64 // the whole SQL transaction of a batch fails at its end, after every command has run, and is rolled back
 	FailBudget int     // total failures still allowed (finite failure sequences)
 	PQueueFull float64 // synchronous refusal in Dispatch
 	CQShuffle  bool
@@ -297,6 +299,9 @@ func (s *Sim) Close() {
 	s.obs.Close()
 }
 
+// rollbackSentinel: inserting a promise with this id aborts the SQL transaction (trigger installed by the harness)
+const rollbackSentinel = "__verif_rollback__"
+
 // boot builds a fresh in-memory server over the (possibly already populated) database.
 func (s *Sim) boot() {
 	s.gen++
@@ -310,6 +315,7 @@ func (s *Sim) boot() {
 		panic(err)
 	}
 	s.store = st
+	_, _ = s.obs.Exec("CREATE TRIGGER IF NOT EXISTS verif_rollback BEFORE INSERT ON promises WHEN NEW.id = '" + rollbackSentinel + "' BEGIN SELECT RAISE(ABORT, 'injected failure at the end of the batch'); END")
 	rt, err := router.New(s.aio, s.met, &router.Config{Size: 10, Workers: 1, Sources: s.cfg.Sources})
 	if err != nil {
 		panic(err)
@@ -753,7 +759,26 @@ func (a *advAIO) Flush(t int64) {
 		for i, p := range g {
 			sqes[i] = p.sqe
 		}
+		rollback := pol.PRollback > 0 && pol.FailBudget > 0 && s.r.Float64() < pol.PRollback
+		if rollback {
+			// one more submission at the end of the batch whose only command trips the sentinel trigger: everything
+			// before it has executed (reads have returned rows, writes have been made), then the transaction aborts
+			pol.FailBudget--
+			s.failures++
+			sqes = append(sqes, &bus.SQE[t_aio.Submission, t_aio.Completion]{Id: "verif-rollback", Callback: func(*t_aio.Completion, error) {},
+				Submission: &t_aio.Submission{Kind: t_aio.Store, Tags: map[string]string{"id": "verif-rollback"}, Store: &t_aio.StoreSubmission{Transaction: &t_aio.Transaction{Commands: []*t_aio.Command{{
+					Kind: t_aio.CreatePromise, CreatePromise: &t_aio.CreatePromiseCommand{Id: rollbackSentinel, Param: promise.Value{Headers: map[string]string{}, Data: []byte{}}, Tags: map[string]string{}, Timeout: 1},
+				}}}}}})
+			for _, p := range g {
+				a.markUncertain(p)
+			}
+			s.logf("AIO  rollback-fail batch of %d", len(g))
+		}
 		cqes := s.store.Process(sqes)
+		if rollback {
+			cqes = cqes[:len(g)]
+			s.mon.hit("fault.batch-rolled-back-at-its-end")
+		}
 		s.afterBatch(t, g, cqes)
 		if s.crashAt > 0 && s.batches == s.crashAt && s.crashSide == "after" {
 			s.crashPending = true
